@@ -24,7 +24,7 @@ class Obl:
         self.failed = []      # list of dict(model=..., pos=..., smt2=..., reason=...)
         self.unknown = []
         self.ms = 0.0
-        self.solver = "z3-5.1.0(py)"
+        self.solver = "structural (decided on the symbolic path: lock set, effect set, path feasibility)"
         self.sample = None
         self.covered = None   # for implications: antecedent satisfiable on some path
 
@@ -433,6 +433,8 @@ class Engine(Conc, Executor, Calls):
         o.ms += dt * 1000
         if who not in ("simplify",):
             o.solver = who
+        elif o.solver.startswith("structural"):
+            o.solver = "z3-5.1.0(py) simplifier (goal reduces to true)"
         if verdict == "proved":
             o.proved += 1
             if o.sample is None and solver is not None:
